@@ -162,12 +162,11 @@ Proof.
   - apply (diff_prints_entries estr a lhs rhs entries li ri P' R).
 Qed.
 
-(* with C06's iff theorem: positional comparison (the defaults) of real, untagged documents -
+(* with C06's iff theorem: positional comparison (the defaults) of real documents, tags included -
    exit 0 exactly when the two documents are data-equal *)
 Lemma diff_exit_iff_data_equal : forall path_eq cfg hm (doc_of : nat -> node) renders estr a lhs rhs li ri l r es report,
   C06Spec.uniform cfg Diff.ArrPosition hm -> hm = Diff.AohPosition \/ hm = Diff.AohDpos ->
   C06Spec.wf_doc (doc_of l) = true -> C06Spec.wf_doc (doc_of r) = true ->
-  C06Spec.untagged (doc_of l) = true -> C06Spec.untagged (doc_of r) = true ->
   dr_picked (diff_main estr a lhs rhs (LOk [])) = Some (li, ri) ->
   nth_error (src_stream estr lhs) li = Some l -> nth_error (src_stream estr rhs) ri = Some r ->
   Diff.compare_to path_eq cfg (doc_of l) (doc_of r) = Ok es ->
@@ -178,9 +177,9 @@ Lemma diff_exit_iff_data_equal : forall path_eq cfg hm (doc_of : nat -> node) re
   (r_status run = Exit 0 <-> C06Spec.data_eq (doc_of l) (doc_of r) = true) /\
   (r_status run = Exit 1 <-> C06Spec.data_eq (doc_of l) (doc_of r) = false).
 Proof.
-  intros path_eq cfg hm doc_of renders estr a lhs rhs li ri l r es report U Hm WL WR UL UR P NL NR C Pm entries R run.
+  intros path_eq cfg hm doc_of renders estr a lhs rhs li ri l r es report U Hm WL WR P NL NR C Pm entries R run.
   destruct (diff_end_to_end path_eq cfg doc_of renders estr a lhs rhs li ri l r es report P NL NR C Pm R) as (E0 & E1 & _).
-  pose proof (DiffIff.nonsame_iff_differ_positional path_eq cfg hm _ _ es U Hm WL WR UL UR C) as S.
+  pose proof (DiffIff.nonsame_iff_differ_positional path_eq cfg hm _ _ es U Hm WL WR C) as S.
   fold entries in E0, E1. fold run in E0, E1. rewrite E0, E1, S.
   destruct (C06Spec.data_eq (doc_of l) (doc_of r)); cbn; split; split; congruence.
 Qed.
@@ -190,7 +189,6 @@ Qed.
 Lemma diff_exit_iff_equiv : forall path_eq cfg am hm (doc_of : nat -> node) renders estr a lhs rhs li ri l r es report,
   C06Spec.uniform cfg am hm -> C06Spec.unkeyed hm = true ->
   C06Spec.wf_doc (doc_of l) = true -> C06Spec.wf_doc (doc_of r) = true ->
-  C06Spec.untagged (doc_of l) = true -> C06Spec.untagged (doc_of r) = true ->
   dr_picked (diff_main estr a lhs rhs (LOk [])) = Some (li, ri) ->
   nth_error (src_stream estr lhs) li = Some l -> nth_error (src_stream estr rhs) ri = Some r ->
   Diff.compare_to path_eq cfg (doc_of l) (doc_of r) = Ok es ->
@@ -200,9 +198,9 @@ Lemma diff_exit_iff_equiv : forall path_eq cfg am hm (doc_of : nat -> node) rend
   let run := dr_run (diff_main estr a lhs rhs (LOk entries)) in
   (r_status run = Exit 0 <-> C06Spec.equiv am hm (doc_of l) (doc_of r) = true).
 Proof.
-  intros path_eq cfg am hm doc_of renders estr a lhs rhs li ri l r es report U Hm WL WR UL UR P NL NR C Pm entries R run.
+  intros path_eq cfg am hm doc_of renders estr a lhs rhs li ri l r es report U Hm WL WR P NL NR C Pm entries R run.
   destruct (diff_end_to_end path_eq cfg doc_of renders estr a lhs rhs li ri l r es report P NL NR C Pm R) as (E0 & _ & _).
-  pose proof (DiffIff.nonsame_iff_differ path_eq cfg am hm _ _ es U Hm WL WR UL UR C) as S.
+  pose proof (DiffIff.nonsame_iff_differ path_eq cfg am hm _ _ es U Hm WL WR C) as S.
   fold entries in E0. fold run in E0. rewrite E0, S.
   destruct (C06Spec.equiv am hm (doc_of l) (doc_of r)); cbn; split; congruence.
 Qed.
